@@ -1,6 +1,6 @@
 (* C03 - switch selects exactly the matching body, with shared, empty and default cases. *)
 From Coq Require Import List ZArith Bool.
-From Pory Require Import Lexer Ast Emitter Sem2 SpecLemmas.
+From Pory Require Import Lexer Ast Emitter Sem2 SpecLemmas Worklist.
 Import ListNotations.
 
 (* the body of the first matching case, shared with the next case that has one *)
@@ -33,3 +33,26 @@ Theorem switch_runs_one_body :
   forall cases m, select_case cases m = [] \/ exists c, In c cases /\ select_case cases m = sc_body c.
 Proof. exact select_is_one_body. Qed.
 Print Assumptions switch_runs_one_body.
+
+(* ---------- emitter side: the case table and the body chunks built for a switch implement that selection ---------- *)
+(* For every case list with at most one default (what the parser accepts) and every assignment m of "the switched value
+   equals v": the chunk the emitted table sends m to - the first listed case whose value matches, else the default entry,
+   else the exit - carries exactly the body the source semantics selects (select_case: first matching case, empty bodies
+   sharing the next body, default only when nothing matches, trailing empty cases leaving the switch); if the emitter
+   elides the switch, every selection is empty.  Proved for the case loop of createSwitchStatementChunks as modelled
+   (sw_loop), by induction over groups of cases (Worklist.v). *)
+Theorem switch_table_selects :
+  forall cases ret sid st el,
+  (Worklist.ndef cases <= 1)%nat ->
+  sw_loop (S (List.length cases)) cases 0 ret {| sw_new := []; sw_cases := []; sw_def := None; sw_counter := sid |} = (st, el) ->
+  (el = true -> forall m, select_case cases m = []) /\
+  (el = false -> forall m,
+     match first_case (sw_cases st) m with
+     | Some d => In (mk d ret (select_case cases m) None) (sw_new st)
+     | None => match sw_def st with
+               | Some dd => In (mk dd ret (select_case cases m) None) (sw_new st)
+               | None => select_case cases m = []
+               end
+     end).
+Proof. exact Worklist.switch_table_selects. Qed.
+Print Assumptions switch_table_selects.
